@@ -131,9 +131,11 @@ def check_instruction(ck, I, label, bs, i, fmts, drv_cases, states=None):
     # -- execute on maps that hold concrete register values, as a running history of instructions
     #    ("applying it to a map": any map, not only an empty one)
     if states is not None:
-        for kind in ("zeros", "small"):
+        states["n"] = states.get("n", 0) + 1
+        # quick: one of the two states per instruction, alternately; thorough: both
+        for kind in (("zeros", "small") if states.get("both") else (("zeros", "small")[states["n"] % 2],)):
             st = states.get(kind)
-            if st is None or st[1] >= 6:
+            if st is None or st[1] >= 4:
                 st = states[kind] = [state_map(I, kind), 0]
             st[1] += 1
             old = signal.signal(signal.SIGALRM, _alarm)
@@ -267,7 +269,7 @@ def main(tier):
             for _ in range(40 if quick else 2000):
                 inputs.append(("random", bytes(r.getrandbits(8) for _ in range(r.randrange(0, I.maxlen + 5)))))
             hooks_reached = set()
-            states = {}
+            states = {"both": not quick}
             for kind, bs in inputs:
                 isa.reset(d)
                 with isa.AttemptTrace() as tr:
